@@ -643,12 +643,18 @@ class AR:
 
 
 class ARS:
-    """x.real.square() or x.imag.square()"""
+    """a * x.real.square() + b * x.imag.square()  (real quadratic pointwise form; a, b python numbers).
+    Pixel sum:  sum re^2 = (N + B)/2,  sum im^2 = (N - B)/2  with N = Re <x, x>, B = Re sum x*x = Re <cj x, x>."""
 
     _pyvc_value = True
 
-    def __init__(self, part, src):
+    def __init__(self, part, src, a=None, b=None):
         self.part, self.src = part, src
+        self.a = a if a is not None else (1 if part == "re" else 0)
+        self.b = b if b is not None else (1 if part == "im" else 0)
+
+    def sum(self, dim=None, keepdim=False, axis=None, keepdims=False):
+        return pixel_sum(self, dim if dim is not None else axis, keepdim or keepdims)
 
 
 class AABS:
@@ -735,10 +741,18 @@ def _coef_of(v, lead):
 
 def a_binop(interp, op, a, b):
     """arithmetic of the inner-product domain"""
-    if isinstance(a, (ARS,)) and isinstance(b, (ARS,)) and op is operator.add:
-        if {a.part, b.part} == {"re", "im"} and at_same(a.src, b.src):
+    if isinstance(a, ARS) and isinstance(b, ARS) and op in (operator.add, operator.sub):
+        if not at_same(a.src, b.src):
+            raise OutOfSubset("sum of squared parts of different abstract images")
+        sg = 1 if op is operator.add else -1
+        ca, cb = a.a + sg * b.a, a.b + sg * b.b
+        if ca == 1 and cb == 1:
             return AAS(a.src)
-        raise OutOfSubset("sum of squared parts of different abstract images")
+        return ARS("mix", a.src, ca, cb)
+    if isinstance(a, ARS) and _is_num(b) and op in (operator.mul, operator.truediv) or isinstance(b, ARS) and _is_num(a) and op is operator.mul:
+        q, c = (a, b) if isinstance(a, ARS) else (b, a)
+        c = c if op is operator.mul else 1.0 / c
+        return ARS("mix", q.src, q.a * c, q.b * c)
     if isinstance(a, AT) and isinstance(b, AT):
         if op is operator.mul:
             return AP(a, b)
@@ -776,6 +790,18 @@ def pixel_sum(x, dim=None, keepdim=False):
     if isinstance(x, AAS):
         src = x.src
         val = lambda *i: Sym(ip(src.fn(*i), src.fn(*i))[0])
+        lead = src.lead
+        is_c = False
+    elif isinstance(x, ARS):
+        src, qa, qb = x.src, x.a, x.b
+
+        def val(*i):
+            v = src.fn(*i)
+            N = ip(v, v)[0]
+            B = ip(av_conj(v), v)[0]
+            half = z3.RealVal("1/2")
+            return Sym(_simp(rterm(qa) * half * (N + B) + rterm(qb) * half * (N - B)))
+
         lead = src.lead
         is_c = False
     elif isinstance(x, AP):
@@ -1193,12 +1219,12 @@ def install(reg):
     def m_sum(interp, x, dim=None, keepdim=False, **kw):
         if "axis" in kw and dim is None:
             dim = kw["axis"]
-        if isinstance(x, (AAS, AP)):
+        if isinstance(x, (AAS, AP, ARS)):
             return pixel_sum(x, dim, keepdim)
         if isinstance(x, CT):
             return x.sum(dim=dim, keepdim=keepdim)
-        if isinstance(x, (AT, AR, ARS, AABS)):
-            raise OutOfSubset(f"pixel sum of {type(x).__name__} (only |x|^2 and products are observable)")
+        if isinstance(x, (AT, AR, AABS)):
+            raise OutOfSubset(f"pixel sum of {type(x).__name__} (only quadratic forms and products are observable)")
         return NotImplemented
 
     wrap(torch.sum, m_sum)
